@@ -25,7 +25,7 @@ def u64(x): return struct.pack(">Q", x & 0xFFFFFFFFFFFFFFFF)
 
 
 def padded(s, width: int) -> bytes:
-    b = s.encode("ascii") if isinstance(s, str) else bytes(s)
+    b = s.encode("utf-8") if isinstance(s, str) else bytes(s)
     assert len(b) <= width, (s, width)
     return b + b"\0" * (width - len(b))
 
@@ -357,7 +357,18 @@ def fieldtext(rng, u, width, full=False, alphabet=None, may_be_empty=True):
     tok = u.token(min(width, 6))
     n = width if full or rng.random() < 0.5 else rng.randrange(len(tok), width + 1)
     s = tok + rtext(rng, n - len(tok), alphabet)
-    return clean_edges(s) or tok
+    s = clean_edges(s) or tok
+    if not full and rng.random() < 0.08 and len(s) > len(tok) + 1:
+        # printable non-ASCII text: a character that takes two or three bytes (the field width counts bytes)
+        ch = rng.choice(["\u00b5", "\u00e9", "\u20ac", "\u00df"])
+        extra = len(ch.encode("utf-8")) - 1
+        k = rng.randrange(len(tok), len(s))
+        t = s[:k] + ch + s[k + 1:]
+        while len(t.encode("utf-8")) > width:
+            t = t[:-1]
+        if ch in t and clean_edges(t) == t:
+            s = t
+    return s
 
 
 def gen_callout(rng, u, must_fru=True):
